@@ -1,5 +1,5 @@
 (* C11 (oneshot and oneshot-broadcast part): close semantics and shared-handle lifecycle. *)
-From FI Require Import Base Oneshot OneshotSpec OneshotProofs.
+From FI Require Import Base Oneshot OneshotSpec OneshotProofs OneshotHandleProofs.
 
 Theorem C11b_close_status : forall s,
   o_res (snd (step s Close)) = [Rbool (negb (fulfilled s))] /\ fulfilled (fst (step s Close)) = true.
@@ -27,7 +27,18 @@ Theorem C11b_refuted_pinned :
             fulfilled s = true /\ has_sender s = true /\ receivers s = 1.
 Proof. exact refuted_pinned. Qed.
 
+(* The handle-lifecycle monitor [handles_ok] of Model/OneshotSpec.v (the one the check evaluates
+   on the real crate's traces of the shared oneshot / oneshot-broadcast flavours) holds on every
+   contract-respecting encoded history with whole-call receiver drops of the repaired model
+   (receiver handles counted): unless close() was called or a value was sent, the channel is
+   fulfilled / closed exactly when the sender is gone or no receiver handle is left. *)
+Theorem C11b_handles_trace : forall k b ls,
+  mlegal_run (init k b true) ls = true ->
+  handles_ok (mtrace (init k b true) ls) = true.
+Proof. exact handles_trace_holds. Qed.
+
 Print Assumptions C11b_close_status.
 Print Assumptions C11b_closed_monotone.
 Print Assumptions C11b_implicit_close.
 Print Assumptions C11b_refuted_pinned.
+Print Assumptions C11b_handles_trace.
